@@ -146,6 +146,10 @@ func kitchen() *gen.Schema {
 	g.Types["O"].Fields = append(g.Types["O"].Fields, &gen.FieldDef{Name: "aOld", Type: gen.Named("String"), Deprecated: "old"})
 	g.Types["Query"].Fields = append(g.Types["Query"].Fields, gen.F("r(q:Int!):String"))
 	g.Types["E"].Values[0].Deprecated = "old"
+	// interfaces with more than one field (their field lists are user visible, too)
+	g.Types["I"].Fields = append(g.Types["I"].Fields, gen.F("p:I"), gen.F("b2:String"))
+	g.Types["O"].Fields = append(g.Types["O"].Fields, gen.F("p:O"), gen.F("b2:String"))
+	g.Types["P"].Fields = append(g.Types["P"].Fields, gen.F("p:I"), gen.F("b2:String"))
 	return g
 }
 
@@ -328,9 +332,9 @@ func appended(g *gen.Schema) (*execx.Fixture, error) {
 			early = append(early, n)
 		}
 	}
-	ga.Add(&gen.TypeDef{Kind: gen.KObject, Name: "Y", Interfaces: []string{"I", "J"}, Fields: []*gen.FieldDef{gen.F("x:String"), gen.F("y:String")}})
-	ga.Add(&gen.TypeDef{Kind: gen.KObject, Name: "X", Interfaces: []string{"I"}, Fields: []*gen.FieldDef{gen.F("x:String")}})
-	ga.Add(&gen.TypeDef{Kind: gen.KObject, Name: "B2", Interfaces: []string{"I", "J"}, Fields: []*gen.FieldDef{gen.F("x:String"), gen.F("y:String")}})
+	ga.Add(&gen.TypeDef{Kind: gen.KObject, Name: "Y", Interfaces: []string{"I", "J"}, Fields: []*gen.FieldDef{gen.F("x:String"), gen.F("y:String"), gen.F("p:I"), gen.F("b2:String")}})
+	ga.Add(&gen.TypeDef{Kind: gen.KObject, Name: "X", Interfaces: []string{"I"}, Fields: []*gen.FieldDef{gen.F("x:String"), gen.F("p:I"), gen.F("b2:String")}})
+	ga.Add(&gen.TypeDef{Kind: gen.KObject, Name: "B2", Interfaces: []string{"I", "J"}, Fields: []*gen.FieldDef{gen.F("x:String"), gen.F("y:String"), gen.F("p:I"), gen.F("b2:String")}})
 	f, err := execx.NewFixture(ga, bridge.Options{ExtraTypes: early})
 	if err != nil {
 		return nil, err
